@@ -287,9 +287,21 @@ def run(chk):
             ok = len(o) == 1 and o[0].value == ("field", ("param", 1), "0")
             chk.ob("R6 status partition", "R6|%s|to-byte" % nm, ok, where(bs[0]), "u8::from(%s) = %s" % (nm, [flow.term_str(x.value) for x in o]))
 
+    client_mapping(chk, p, S, tab)
+    chk.floor("R1", 7)
+    chk.floor("R2", 6)
+    chk.floor("R3", 18)
+    chk.floor("R4", 3)
+    chk.floor("R5", 20)
+    chk.floor("R6", 14)
+    chk.floor("R7", 3)
+    chk.assumptions = ["ciborium encodes u8 keys as CBOR unsigned integers and maps in insertion order", "strum's from_repr matches discriminants"]
+
+
+def client_mapping(chk, p, S, tab, R="R7 client mapping", K="R7"):
     # ---------------- R7
     conv = [b for b in p.methods_named("passkey_client::WebauthnError", "from", trait="core::convert::From") if "StatusCode" in b.path]
-    if chk.require("R7 client mapping", "R7|conversion", len(conv) == 1, "passkey_client::WebauthnError", "From<StatusCode> for WebauthnError not found"):
+    if chk.require(R, K + "|conversion", len(conv) == 1, "passkey_client::WebauthnError", "From<StatusCode> for WebauthnError not found"):
         b = conv[0]
         chk.touched(b)
         outs = S.local_outcomes(b)
@@ -315,10 +327,10 @@ def run(chk):
                 ok_ae = False
             if v and not flow.term_contains(v, lambda x: x == ("param", 1)):
                 ok_ae = False
-        chk.ob("R7 client mapping", "R7|NoCredentials->CredentialNotFound", ok_nf and len(outs) == len(nf) + len(ae), where(b), "; ".join(wit) or "no CredentialNotFound row")
-        chk.ob("R7 client mapping", "R7|others-pass-through", ok_ae, where(b), "AuthenticatorError rows: %s" % [flow.term_str(o.value) for o in ae])
+        chk.ob(R, K + "|NoCredentials->CredentialNotFound", ok_nf and len(outs) == len(nf) + len(ae), where(b), "; ".join(wit) or "no CredentialNotFound row")
+        chk.ob(R, K + "|others-pass-through", ok_ae, where(b), "AuthenticatorError rows: %s" % [flow.term_str(o.value) for o in ae])
     au = ceremony(p, "authenticate", adt=CLIENT)
-    if chk.require("R7 client mapping", "R7|authenticate", au, CLIENT, "Client::authenticate not found"):
+    if chk.require(R, K + "|authenticate", au, CLIENT, "Client::authenticate not found"):
         chk.touched(au)
         T = flow.Terms(p, au)
         aws = [a for a in flow.awaits(au) if a.call is not None and names.call_is(a.call, "Authenticator::get_assertion")]
@@ -334,12 +346,4 @@ def run(chk):
                     # Into::<WebauthnError>::into passed as a function item, or a closure calling it
                     ok = (f[0] == "const" and isinstance(f[1], str) and "Into" in f[1] and "WebauthnError" in f[1]) or \
                          (f[0] == "closure" and any(names.call_is(t2, "Into::into", "From::from") and "WebauthnError" in (t2.get("callee_full") or "") for bb2, t2 in p.bodies[f[1]].calls()))
-        chk.ob("R7 client mapping", "R7|Client::authenticate|uses-conversion", ok, where(au), wit)
-    chk.floor("R1", 7)
-    chk.floor("R2", 6)
-    chk.floor("R3", 18)
-    chk.floor("R4", 3)
-    chk.floor("R5", 20)
-    chk.floor("R6", 14)
-    chk.floor("R7", 3)
-    chk.assumptions = ["ciborium encodes u8 keys as CBOR unsigned integers and maps in insertion order", "strum's from_repr matches discriminants"]
+        chk.ob(R, K + "|Client::authenticate|uses-conversion", ok, where(au), wit)
